@@ -163,10 +163,7 @@ func (e *Env) Eval(x SExpr) Val {
 			}
 			return Val{T: v.T, S: app("-", v.S)}
 		case "^":
-			if e.vc().BV {
-				return Val{T: v.T, S: app("bvnot", v.S)}
-			}
-			sfail("^ needs bit-vector mode")
+			return Val{T: v.T, S: e.x.bitnot(v.T, v.S)}
 		}
 	case *SBinary:
 		return e.evalBinary(n)
@@ -499,6 +496,23 @@ func (e *Env) evalCall(n *SCall) Val {
 			ref = v.Fs[0].S
 		}
 		return boolVal(And(app(">=", ref, h.alloc(e.old)), app("<", ref, h.alloc(e.cur))))
+	case "bound":
+		// bound(recv, "Iface.Method"): the method value recv.Method of an interface value
+		// (same uninterpreted constructor the engine uses for `x.Method` in the code)
+		recv := arg(0)
+		lit := e.strArg(n, 1)
+		k := strings.LastIndex(lit, ".")
+		it := e.x.resolveType(lit[:k], e.pkg)
+		name := "(" + types.TypeString(it, nil) + ")." + lit[k+1:] + "$bound"
+		var args, sorts []string
+		eachLeaf(recv, "", func(p string, lv Val) { args = append(args, lv.S); sorts = append(sorts, e.vc().sortOf(lv.T)) })
+		bf := e.vc().Fun("bound:"+name, sorts, "Int")
+		return Val{T: types.NewSignatureType(nil, nil, nil, nil, nil, false), S: app(bf, args...)}
+	case "implements":
+		// implements(v, "Iface"): the dynamic type of interface value v implements Iface
+		v := arg(0)
+		it := e.x.resolveType(e.strArg(n, 1), e.pkg)
+		return boolVal(e.x.implements(v.Fs[0].S, it))
 	case "chanclosed":
 		v := arg(0)
 		return boolVal(e.x.chanClosed(e.cur, v.S))
@@ -633,6 +647,21 @@ func (e *Env) evalCall(n *SCall) Val {
 	case "int":
 		v := arg(0)
 		return e.coerce(v, intT)
+	case "int32", "int64", "uint32", "uint64", "uint8", "int8", "int16", "uint16":
+		v := arg(0)
+		var tt types.Type
+		for _, b := range types.Typ {
+			if b.Name() == n.Fun {
+				tt = b
+			}
+		}
+		if v.T == untypedInt {
+			return e.coerce(v, tt)
+		}
+		if !isInteger(v.T) {
+			sfail("%s(): not an integer", n.Fun)
+		}
+		return Val{T: tt, S: e.x.convert(nil, v, v.T, tt, nil).S}
 	case "bit":
 		// bit(mask, n): is bit n (0-based) set — consistent with Exec.bitop encoding
 		m := arg(0)
